@@ -20,6 +20,8 @@ pub struct IoLoopHandle { _p: u8 }
 impl IoLoopHandle {
     pub uninterp spec fn log(&self) -> Seq<Emission>;
     pub uninterp spec fn id(&self) -> u16;
+    /// ghost: the failures this handle has reported to its user so far (what the I/O thread queued for it, or EventLoopDropped)
+    pub uninterp spec fn errs(&self) -> Seq<Error>;
     #[verifier::external_body]
     pub fn channel_id(&self) -> (r: u16) ensures r == self.id() { unimplemented!() }
     #[verifier::external_body]
@@ -28,54 +30,72 @@ impl IoLoopHandle {
             r is Ok ==> final(self).log() == old(self).log().push(Emission::Method(method.spec_class()))
                 && (exists|class: AMQPClass| #![auto] T::spec_try(class) == Some(r->Ok_0)),
             r is Err ==> final(self).log() == old(self).log() || final(self).log() == old(self).log().push(Emission::Method(method.spec_class())),
+            r matches Err(verif_e) ==> final(self).errs() == old(self).errs().push(verif_e),
+            r is Ok ==> final(self).errs() == old(self).errs(),
     { unimplemented!() }
     #[verifier::external_body]
     pub fn call_nowait<M: IntoAmqpClass>(&mut self, method: M) -> (r: Result<()>)
         ensures final(self).id() == old(self).id(),
             r is Ok ==> final(self).log() == old(self).log().push(Emission::Method(method.spec_class())),
             r is Err ==> final(self).log() == old(self).log(),
+            r matches Err(verif_e) ==> final(self).errs() == old(self).errs().push(verif_e),
+            r is Ok ==> final(self).errs() == old(self).errs(),
     { unimplemented!() }
     #[verifier::external_body]
     pub fn call_connection_close(&mut self, close: ConnectionClose) -> (r: Result<ConnectionCloseOk>)
         ensures final(self).id() == old(self).id(),
             r is Ok ==> final(self).log() == old(self).log().push(Emission::ConnectionClose(AMQPClass::Connection(AmqpConnection::Close(close)))),
             r is Err ==> final(self).log() == old(self).log() || final(self).log() == old(self).log().push(Emission::ConnectionClose(AMQPClass::Connection(AmqpConnection::Close(close)))),
+            r matches Err(verif_e) ==> final(self).errs() == old(self).errs().push(verif_e),
+            r is Ok ==> final(self).errs() == old(self).errs(),
     { unimplemented!() }
     #[verifier::external_body]
     pub fn get(&mut self, get: AmqpGet) -> (r: Result<Option<Get>>)
         ensures final(self).id() == old(self).id(),
             r is Ok ==> final(self).log() == old(self).log().push(Emission::Method(AMQPClass::Basic(AmqpBasic::Get(get)))),
             r is Err ==> final(self).log() == old(self).log() || final(self).log() == old(self).log().push(Emission::Method(AMQPClass::Basic(AmqpBasic::Get(get)))),
+            r matches Err(verif_e) ==> final(self).errs() == old(self).errs().push(verif_e),
+            r is Ok ==> final(self).errs() == old(self).errs(),
     { unimplemented!() }
     #[verifier::external_body]
     pub fn consume(&mut self, consume: Consume) -> (r: Result<(String, CrossbeamReceiver<ConsumerMessage>)>)
         ensures final(self).id() == old(self).id(),
             r is Ok ==> final(self).log() == old(self).log().push(Emission::Method(AMQPClass::Basic(AmqpBasic::Consume(consume)))),
             r is Err ==> final(self).log() == old(self).log() || final(self).log() == old(self).log().push(Emission::Method(AMQPClass::Basic(AmqpBasic::Consume(consume)))),
+            r matches Err(verif_e) ==> final(self).errs() == old(self).errs().push(verif_e),
+            r is Ok ==> final(self).errs() == old(self).errs(),
     { unimplemented!() }
     #[verifier::external_body]
     pub fn send_content_header(&mut self, class_id: u16, len: usize, properties: &AMQPProperties) -> (r: Result<()>)
         ensures final(self).id() == old(self).id(),
             r is Ok ==> final(self).log() == old(self).log().push(Emission::Header { class_id, len: len as u64, properties: *properties }),
             r is Err ==> final(self).log() == old(self).log(),
+            r matches Err(verif_e) ==> final(self).errs() == old(self).errs().push(verif_e),
+            r is Ok ==> final(self).errs() == old(self).errs(),
     { unimplemented!() }
     #[verifier::external_body]
     pub fn send_content_body(&mut self, content: &[u8]) -> (r: Result<()>)
         ensures final(self).id() == old(self).id(),
             r is Ok ==> final(self).log() == old(self).log().push(Emission::Body(content@)),
             r is Err ==> final(self).log() == old(self).log(),
+            r matches Err(verif_e) ==> final(self).errs() == old(self).errs().push(verif_e),
+            r is Ok ==> final(self).errs() == old(self).errs(),
     { unimplemented!() }
     #[verifier::external_body]
     pub fn set_return_handler(&mut self, handler: Option<CrossbeamSender<Return>>) -> (r: Result<()>)
         ensures final(self).id() == old(self).id(),
             r is Ok ==> final(self).log() == old(self).log().push(Emission::SetReturnHandler(handler)),
             r is Err ==> final(self).log() == old(self).log(),
+            r matches Err(verif_e) ==> final(self).errs() == old(self).errs().push(verif_e),
+            r is Ok ==> final(self).errs() == old(self).errs(),
     { unimplemented!() }
     #[verifier::external_body]
     pub fn set_pub_confirm_handler(&mut self, handler: Option<CrossbeamSender<Confirm>>) -> (r: Result<()>)
         ensures final(self).id() == old(self).id(),
             r is Ok ==> final(self).log() == old(self).log().push(Emission::SetPubConfirmHandler(handler)),
             r is Err ==> final(self).log() == old(self).log(),
+            r matches Err(verif_e) ==> final(self).errs() == old(self).errs().push(verif_e),
+            r is Ok ==> final(self).errs() == old(self).errs(),
     { unimplemented!() }
 }
 /// IoLoopHandle0 derefs to its common IoLoopHandle; the mirror exposes the methods Channel0Handle uses directly
@@ -84,6 +104,8 @@ pub struct IoLoopHandle0 { _p: u8 }
 impl IoLoopHandle0 {
     pub uninterp spec fn log(&self) -> Seq<Emission>;
     pub uninterp spec fn id(&self) -> u16;
+    /// ghost: the failures this handle has reported to its user so far (what the I/O thread queued for it, or EventLoopDropped)
+    pub uninterp spec fn errs(&self) -> Seq<Error>;
     #[verifier::external_body]
     pub fn channel_id(&self) -> (r: u16) ensures r == self.id() { unimplemented!() }
     #[verifier::external_body]
@@ -91,6 +113,8 @@ impl IoLoopHandle0 {
         ensures final(self).id() == old(self).id(),
             r is Ok ==> final(self).log() == old(self).log().push(Emission::ConnectionClose(AMQPClass::Connection(AmqpConnection::Close(close)))),
             r is Err ==> final(self).log() == old(self).log() || final(self).log() == old(self).log().push(Emission::ConnectionClose(AMQPClass::Connection(AmqpConnection::Close(close)))),
+            r matches Err(verif_e) ==> final(self).errs() == old(self).errs().push(verif_e),
+            r is Ok ==> final(self).errs() == old(self).errs(),
     { unimplemented!() }
     /// the handle handed back carries the id the I/O thread allocated (the requested one if any: unit slots) and an empty log
     #[verifier::external_body]
@@ -99,11 +123,15 @@ impl IoLoopHandle0 {
             r is Ok ==> final(self).log() == old(self).log().push(Emission::AllocChannel(channel_id)) && r->Ok_0.log().len() == 0
                 && (channel_id is Some ==> r->Ok_0.id() == channel_id->0) && r->Ok_0.id() != 0,
             r is Err ==> final(self).log() == old(self).log() || final(self).log() == old(self).log().push(Emission::AllocChannel(channel_id)),
+            r matches Err(verif_e) ==> final(self).errs() == old(self).errs().push(verif_e),
+            r is Ok ==> final(self).errs() == old(self).errs(),
     { unimplemented!() }
     #[verifier::external_body]
     pub fn set_blocked_tx(&mut self, tx: CrossbeamSender<ConnectionBlockedNotification>) -> (r: Result<()>)
         ensures final(self).id() == old(self).id(),
             r is Ok ==> final(self).log() == old(self).log().push(Emission::SetBlockedTx(tx)),
             r is Err ==> final(self).log() == old(self).log(),
+            r matches Err(verif_e) ==> final(self).errs() == old(self).errs().push(verif_e),
+            r is Ok ==> final(self).errs() == old(self).errs(),
     { unimplemented!() }
 }
